@@ -287,4 +287,84 @@ def openTable (d : Disk) : Option (Handle × Disk) :=
               files := setFile d.files e.fid ((d.files e.fid).take e.off) })
     | _ => none
 
+/-! ### data files that do not EXIST (round 6, second increment)
+
+Everywhere above a missing data file and an empty one are the same thing.  They are not for
+`preopen` (`open_read_only(id)` for `tail_id..head_id` fails on a missing file, and with it the whole
+`FreezerFiles::open`) nor for a `retrieve` that has to open the file.  `present` is the list of ids
+whose file exists; a file that is not present has no bytes (`d.files id = []`, kept by the driver).
+
+* `build` opens data files with `create(true)`: the file of the newest index entry, and, each time
+  the repair loop slips back to an entry of another file, that file — i.e. the files of the entries
+  it VISITS, from the newest down to the one it stops at (`touchedBy`); these exist afterwards.
+* a failed `build` leaves the INDEX empty: a 1..11-byte INDEX is trimmed to 0 before the first read
+  fails; when no entry fits, every entry has been cut off before the loop underflows.
+* `append` creates the next file at a rollover; `truncate` across files creates (`open_append`) the
+  new head if needed and unlinks what `delete_after` pops. -/
+
+/-- ids of the data files `build` opens with `create(true)` -/
+def touchedBy (d : Disk) : List Nat :=
+  if d.idx.isEmpty then (if d.tail = 0 then [0] else [])
+  else
+    match lastFit d.files d.idx.reverse with
+    | some r => (d.idx.reverse.take (d.idx.length - r.length + 1)).map (·.fid)
+    | none => d.idx.map (·.fid)
+
+/-- `preopen` fails: some id in `tail_id..head_id` has no file (neither before nor created by `build`) -/
+def preopenFails (present touched : List Nat) (tailId headId : Nat) : Bool :=
+  (List.range headId).any fun id => decide (tailId ≤ id) && !(present.contains id) && !(touched.contains id)
+
+/-- `tail_id`: the file id of the first index entry -/
+def tailIdOf (d : Disk) : Nat := match d.idx with | t :: _ => t.fid | [] => 0
+
+structure OpenX where
+  /-- `none` = `FreezerFiles::open` returned `Err` (or panicked) -/
+  h : Option Handle
+  /-- the directory afterwards (a failed open has side effects too) -/
+  d : Disk
+  present : List Nat
+
+/-- `FreezerFiles::open` on a directory in which only the files `present` exist -/
+def openX (cap : Nat) (d : Disk) (present : List Nat) : OpenX :=
+  let present' := present ++ (touchedBy d).filter (fun id => !(present.contains id))
+  match openL cap d with
+  | none =>
+    if d.idx.isEmpty then ⟨none, { d with tail := 0 }, present'⟩
+    else ⟨none, { d with idx := [], tail := 0 }, present'⟩
+  | some (h, d') =>
+    if preopenFails present (touchedBy d) (tailIdOf d') h.headId then ⟨none, d', present'⟩
+    else ⟨some h, d', present'⟩
+
+/-- `retrieve` when files may be missing: `open_read_only` of a missing file is an `Err` -/
+def retrieveX (h : Handle) (d : Disk) (present : List Nat) (item : Nat) : Ret :=
+  if item < 1 ∨ h.number ≤ item then retrieve h d item
+  else match getBounds d item with
+    | some (_, _, fid) => if present.contains fid then retrieve h d item else .err
+    | none => retrieve h d item
+
+/-- the cache after `retrieveX`: a failed `open_read_only` puts nothing -/
+def retrieveCacheX (cap : Nat) (h : Handle) (d : Disk) (present : List Nat) (item : Nat) : List Nat :=
+  if item < 1 ∨ h.number ≤ item then h.cache
+  else match getBounds d item with
+    | some (_, _, fid) => if present.contains fid then retrieveCache cap h d item else h.cache
+    | none => h.cache
+
+/-- the files that exist after `appendL`: a rollover creates the next one -/
+def presentAppend (max : Nat) (h : Handle) (data : Bytes) (present : List Nat) : List Nat :=
+  if h.headBytes + data.length > max ∧ !(present.contains (h.headId + 1)) then present ++ [h.headId + 1]
+  else present
+
+/-- the files that exist after `truncateL`: across files the new head is created if need be and
+    the ids `delete_after` pops are unlinked -/
+def presentTruncate (cap : Nat) (h : Handle) (d : Disk) (item : Nat) (present : List Nat) : List Nat :=
+  if item < 1 ∨ item + 1 ≥ h.number then present
+  else match (d.idx.take (item + 1))[item]? with
+    | none => present
+    | some e =>
+      if e.fid ≠ h.headId then
+        let atDelete := lruPut cap (lruPop h.cache e.fid) e.fid
+        let p1 := if present.contains e.fid then present else present ++ [e.fid]
+        p1.filter fun id => !(decide (id > e.fid) && atDelete.contains id)
+      else present
+
 end CkbVerif.Freezer
